@@ -46,8 +46,14 @@ QUICK_THEORIES = {
 
 
 def select(ths, prop, tier):
-    """the corpus theories a check uses: a fixed subset in the quick tier, all of them in thorough"""
-    names = sorted(ths) if tier == "thorough" or prop not in QUICK_THEORIES else [n for n in QUICK_THEORIES[prop] if n in ths]
+    """the corpus theories a check uses: a fixed subset in the quick tier; the thorough tier adds the four
+    corpus theories after them in alphabetical order (and more histories per theory)"""
+    if prop not in QUICK_THEORIES:
+        names = sorted(ths)
+    else:
+        names = [n for n in QUICK_THEORIES[prop] if n in ths]
+        if tier == "thorough":
+            names += [n for n in sorted(ths) if n not in names][:4]
     return [(n, ths[n]) for n in names]
 
 
